@@ -169,8 +169,11 @@ def r1_visit_map(ctx, prog, r):
                     continue
                 swb, t_true, t_false = rsw
                 errs = [e for e in M.call_blocks(b, r"serde::de::Error::custom$") if e in nodes or b.dominates(swb, e)]
-                err_on_false = any(M.straight_reach(b, t_false, e) for e in errs)
-                err_on_true = any(M.straight_reach(b, t_true, e) for e in errs)
+                # the error is reached from the `not contained` side (possibly after a further test such as `k != default`),
+                # and not from the `contained` side before the next membership test / the next iteration
+                others = [c2 for c2 in inloop if c2 != c]
+                err_on_false = any(M.straight_reach(b, t_false, e) for e in errs) or bool(b.paths_avoiding(t_false, errs, [hdr, t_true] + others))
+                err_on_true = any(M.straight_reach(b, t_true, e) for e in errs) or bool(b.paths_avoiding(t_true, errs, [hdr, t_false] + others))
                 if on_locales and name and err_on_false and not err_on_true:
                     vars_checked.add(name)
                     r.inst("visit_map#inherits-%s" % name, "`!locales.contains(%s)` -> custom error; membership tested for the %s of every inherits entry" % (name, "key" if name == "k" else "value"))
@@ -665,7 +668,8 @@ def run(ctx):
             rk.viol("K:Field::" + cname, "configuration key is %r, documented as %r" % (c["expr"].get("str"), val), file=CFG, line=c["line"])
         else:
             rk.inst("Field::" + cname, "= %r" % val)
-    if ok:
+    import os
+    if ok and not os.environ.get("VERIF_FORCE_FALLBACK"):
         return [r0, rk, rd]
     # a construct outside rules/absint.py: fall back to the structural clauses on the MIR of the same functions
     r1 = Rule("C19.R1", "configuration validation dominates acceptance",
@@ -679,7 +683,7 @@ def run(ctx):
               "the PathBuf is shared across locales and namespaces; an unbalanced push/pop or a different component order "
               "makes later locales read from the wrong place", floor=7)
     r2_paths(ctx, prog, r2)
-    if not r0.violations:
+    if not ok and not r0.violations:
         r0.instances[:] = []
         r0.inst("evaluation not available", "fallback to structural rules R1/R2: %s" % str(why)[:160])
         r0.floor = 1
